@@ -69,6 +69,13 @@ static t_char h_s[OSMT_CAP + 1]; t_int h_len, g_w;
   __CPROVER_loop_invariant(first <= i && i <= h_len && (g_w >= 0 ==> i <= g_w)) \
   __CPROVER_decreases(h_len - i)
 #endif
+#ifdef C16_REAL_LC
+static t_char h_s[OSMT_CAP + 1]; static t_char h_st[OSMT_CAP + 1]; t_int h_len, g_w, h_first;
+#define OSMT_LOOP_isRealString_1 \
+  __CPROVER_assigns(i, state, unexpectedSymbol) \
+  __CPROVER_loop_invariant(h_first <= i && i <= h_len && (t_int)state >= 0 && (t_int)state <= 7 && (g_w >= 0 ==> (i <= g_w || unexpectedSymbol)) && (h_st[i] != 9 ==> (!unexpectedSymbol && (t_int)state == (t_int)h_st[i]))) \
+  __CPROVER_decreases(h_len - i)
+#endif
 /* characters that can occur in a numeric literal at all */
 static int lit_char(char c) { return is_dig(c) || c == '.' || c == '/' || c == '-'; }
 #endif
